@@ -344,6 +344,57 @@ def check_tables(ctx, fi, cls, rule="C06.R3"):
     return len(verdict)
 
 
+def nonzero(d, conj):
+    """Do the path's guards exclude d == 0?  (sound, incomplete: comparisons of d or of its single factor against constants)"""
+    if N.is_int(d):
+        return d[2] != 0
+    if d[0] == "lin" and d[2] == 0 and len(d[1]) == 1:
+        return nonzero(d[1][0][0], conj)
+    if d[0] == "mul":
+        return nonzero(d[1], conj) and nonzero(d[2], conj)
+    for g in conj:
+        if g == d:
+            return True
+        if g[0] != "cmp":
+            continue
+        op, l, r = g[1], g[2], g[3]
+        if r == d and N.is_int(l):
+            op, l, r = {"<": ">", "<=": ">=", ">": "<", ">=": "<=", "==": "==", "!=": "!="}.get(op, op), r, l
+        if l == d and N.is_int(r) and not isinstance(r[2], bool):
+            c = r[2]
+            if (op == ">=" and c >= 1) or (op == ">" and c >= 0) or (op == "==" and c != 0) or (op == "!=" and c == 0) or (op == "<" and c <= 0) or (op == "<=" and c <= -1):
+                return True
+    return False
+
+
+def check_divisors(ctx, fi, cls, rule="C06.R7"):
+    """A division or modulo whose divisor is computed from the context or the data is preceded by a guard that excludes zero (else ZeroDivisionError escapes parse)."""
+    paths = paths_of(ctx, fi, cls)
+    verdict = {}
+    for p in paths:
+        conj = []
+        for e in p.events:
+            if e.depth:
+                continue
+            for v in e.a.values():
+                if not isinstance(v, tuple):
+                    continue
+                for x in N.walk(v):
+                    d = x[2] if x[0] == "mod" else (x[3] if x[0] == "bin" and x[1] in ("//", "/", "%") else None)
+                    if d is None or N.is_int(d) and d[2] != 0:
+                        continue
+                    k = N.show(d)
+                    ok = nonzero(d, conj)
+                    cur = verdict.get(k, (True, e))
+                    verdict[k] = (cur[0] and ok, cur[1])
+            if e.kind == "ASSUME":
+                c = e["cond"]
+                conj.extend(c[2] if c[0] == "bool" and c[1] == "and" else (c,))
+    for k, (ok, e) in verdict.items():
+        ctx.ob(rule, fi, ok, "divisor %s is computed at parse time; every path reaching the division first excludes zero (otherwise ZeroDivisionError, not a ConstructError, escapes)" % k, key="divisor %s" % k, node=e.node)
+    return len(verdict)
+
+
 def run(ctx):
     M = ctx.model
     S = summariser(ctx)
@@ -375,7 +426,13 @@ def run(ctx):
     for fi, cls in protocol_functions(M, PARSE_SIDE):
         check_seeks(ctx, fi, cls)
     ctx.floor("C06.R6", 10)
-    # Tunnel family: _decode of stdlib codecs
+    # ---------------------------------------------------------------- R7
+    for fi, cls in protocol_functions(M, PARSE_SIDE):
+        check_divisors(ctx, fi, cls)
+    ctx.floor("C06.R7", 4)
+    # a terminator narrower than the code unit accepts strict prefixes of canonical encodings (shared with C03.R2)
+    from . import C03
+    C03.unit_table_check(ctx, "C06.R2")
     # ---------------------------------------------------------------- R4 (shared with C13.R5)
     C13.check_swallow(ctx, M, S, rule="C06.R4")
     ctx.floor("C06.R4", 4)
